@@ -44,7 +44,11 @@ def base_spec(b, start):
         r1["limits"] = {"dailymax": "2h"}
     elif b["lim"] == "weekly":
         r1["limits"] = {"weeklymax": "5h"}
-    if b["dur"] == "3w":
+    if b["dur"] == "9w":
+        # a limit that binds early, then nothing, then pinned work weeks later (same day of month / weekday / week number)
+        tasks = [T("a", 240), T("b", 120, start=D(start, 31, "-09:00")), T("c", 180, start=D(start, 28, "-09:00")), T("d", 60, start=D(start, 59, "-10:00"), prio=700),
+                 T("e", 300, "r2", deps=[{"ref": "a", "gap": "30d"}])]
+    elif b["dur"] == "3w":
         tasks = [T("a", 200), T("b", 90, deps=["a"]), T("c", 150, "r2", prio=700), {"id": "m", "milestone": True, "deps": ["c"]}]
         if b["pin"]:
             tasks[2]["start" if b["mode"] == "asap" else "end"] = D(start, 2, "-10:00") if b["mode"] == "asap" else D(start, 11, "-15:00")
@@ -70,7 +74,8 @@ def bases(tier):
 
 
 def long_bases():
-    return [{"cal": "default", "lv": "none", "lim": "weekly", "mode": "asap", "pin": False, "dur": "60w", "long_effort_h": 270},
+    return [{"cal": "default", "lv": "none", "lim": "daily", "mode": "asap", "pin": False, "dur": "9w"},
+            {"cal": "split", "lv": "proj", "lim": "weekly", "mode": "asap", "pin": False, "dur": "9w"},{"cal": "default", "lv": "none", "lim": "weekly", "mode": "asap", "pin": False, "dur": "60w", "long_effort_h": 270},
             {"cal": "default", "lv": "proj", "lim": "weekly", "mode": "asap", "pin": False, "dur": "110w", "long_effort_h": 520}]
 
 
@@ -82,8 +87,8 @@ def universe(tier):
             for k in ks:
                 yield {"b": b, "start": s, "k": k}
     for b in long_bases():
-        for s in (STARTS if tier == "thorough" else [STARTS[0], STARTS[3]]):
-            for k in ((1, 52, 53, 104) if tier == "quick" else (1, 4, 26, 52, 53, 104, 157)):
+        for s in (STARTS if (tier == "thorough" or b["dur"] == "9w") else [STARTS[0], STARTS[3]]):
+            for k in ((1, 52, 53, 104) if (tier == "quick" and b["dur"] != "9w") else (1, 2, 3, 4, 5, 13, 26, 52, 53, 104, 157)):
                 yield {"b": b, "start": s, "k": k}
 
 
@@ -145,7 +150,7 @@ def run(ctx):
     explore(ctx, universe(ctx.tier), "mc.props.c14:evaluate", st, payload=payload, sample_of=sample, trait=trait, timeout=300)
     common.vacuity_guard(ctx, st)
     cov = st.coverage(
-        "108 three-week bases (calendar x leaves x limit x ASAP/ALAP-with-ends x pin) x starts x week offsets, plus 60- and 110-week bases "
+        "108 three-week bases (calendar x leaves x limit x ASAP/ALAP-with-ends x pin) x starts x week offsets, plus 9-week bases with a daily/weekly limit that binds early and pinned work one and two months later, and 60- and 110-week bases "
         "whose work is spread by a weekly limit across one or two year ends; two real scheduler runs per pair; states = distinct base "
         "observations; transitions = placements + bookings of both runs; non-trivial = the shift or the schedule crosses a year end",
         offsets_weeks=KS_Q if ctx.tier == "quick" else KS_T)
